@@ -91,7 +91,8 @@ theorem mem_boolAll (b : Bool) : b ∈ boolAll := by cases b <;> decide
 /-- the tables look at a kind only through `kc`, `isSym` and "is it ClassDef": one representative per combination -/
 def Kind.rep : Kind → Kind
   | .funcdef => .funcdef | .classdef => .classdef | .lambda => .lambda | .comp => .comp | .namedexpr => .namedexpr
-  | .tparam | .nameLoad | .nameStore | .nameDel | .arg | .augassign | .import_ | .nonlocal | .global => .nameLoad
+  | .tparam | .nameLoad | .nameStore | .nameDel | .arg | .augassign | .import_ | .nonlocal | .global | .handler | .matchAs
+  | .matchStar | .matchMap => .nameLoad
   | _ => .other
 def Kind.reps : List Kind := [.funcdef, .classdef, .lambda, .comp, .namedexpr, .nameLoad, .other]
 /-- roles no table mentions behave like `plain` -/
@@ -119,9 +120,9 @@ theorem kidsOf_rep (s : SS Bool) (k : Kind) (r : Role) : s.kidsOf false k r = s.
 theorem sStepF_rep (flt : Bool) (s : SS Bool) (k : Kind) (r : Role) : sStepF flt s k r = sStepF flt s k.rep r.rep := by
   have h1 : k.isSym = k.rep.isSym := by cases k <;> rfl
   simp only [sStepF, sStep, ctx_rep s r, kidsOf_rep s k r, h1]
-theorem ok_rep (flt : Bool) (s : SS Bool) (m : MPos) (k : Kind) (r : Role) : ok flt s m k r = ok flt s m k.rep r.rep := by
-  have h1 : ok flt s m k r = ok flt s m k.rep r := by cases k <;> rfl
-  have h2 : ok flt s m k.rep r = ok flt s m k.rep r.rep := by cases r <;> rfl
+theorem ok_rep (s : SS Bool) (m : MPos) (k : Kind) (r : Role) : ok s m k r = ok s m k.rep r.rep := by
+  have h1 : ok s m k r = ok s m k.rep r := by cases k <;> rfl
+  have h2 : ok s m k.rep r = ok s m k.rep r.rep := by cases r <;> rfl
   rw [h1, h2]
 theorem sNext_rep (s : SS Bool) (r : Role) : sNext s r = sNext s r.rep := by
   obtain ⟨p, a, b, c, d⟩ := s
@@ -135,7 +136,7 @@ def checkPair (flt : Bool) (s : SS Bool) (m : MPos) : Bool :=
   (Role.reps.all fun r =>
     rel (sNext s r) (mNext m r) &&
     Kind.reps.all fun k =>
-      !ok flt s m k r ||
+      !ok s m k r ||
       ((sStepF flt s k r).1 == (mStep flt m k r).1 && rel (sStepF flt s k r).2 (mStep flt m k r).2))
 
 /-- all spec states against one model state and one filter setting -/
@@ -235,7 +236,7 @@ theorem checkPair_true (flt : Bool) (s : SS Bool) (m : MPos) : checkPair flt s m
   exact h p (Pos.mem_all _) a (mem_boolAll _) b (mem_boolAll _) c (mem_boolAll _) d (mem_boolAll _)
 
 theorem step_ok (flt : Bool) (s : SS Bool) (m : MPos) (k : Kind) (r : Role) (hR : rel s m = true)
-    (hk : ok flt s m k r = true) :
+    (hk : ok s m k r = true) :
     (sStepF flt s k r).1 = (mStep flt m k r).1 ∧ rel (sStepF flt s k r).2 (mStep flt m k r).2 = true := by
   have h := checkPair_true flt s m
   simp only [checkPair, hR, Bool.not_true, Bool.false_or, List.all_eq_true, Bool.and_eq_true, Bool.or_eq_true,
@@ -257,13 +258,47 @@ theorem init_rel (k : Kind) : rel (sInit true k) (mInit k) = true := by cases k 
 
 theorem sStepF_eq (flt : Bool) : sStepF flt = filtTable sStep (fun k => !flt || k.isSym) := rfl
 
+/-- the states the model reaches do not depend on the `all` filter -/
+def kidsIndep : Bool :=
+  MPos.all.all fun m => Kind.all.all fun k => Role.all.all fun r => (mStep true m k r).2 == (mStep false m k r).2
+
+theorem kidsIndep_true : kidsIndep = true := by decide +kernel
+
+theorem mStep_snd (flt : Bool) (m : MPos) (k : Kind) (r : Role) : (mStep flt m k r).2 = (mStep false m k r).2 := by
+  cases flt
+  · rfl
+  · have h := kidsIndep_true
+    simp only [kidsIndep, List.all_eq_true, beq_iff_eq] at h
+    exact h m (MPos.mem_all m) k (Kind.mem_all k) r (Role.mem_all r)
+
+section congr
+variable {σ τ : Type} (f1 f1' : σ → Kind → Role → Bool × σ) (g1 : σ → Role → σ) (f2 f2' : τ → Kind → Role → Bool × τ)
+  (g2 : τ → Role → τ) (okk : σ → τ → Kind → Role → Bool)
+
+mutual
+theorem goodG_congr (h1 : ∀ s k r, (f1 s k r).2 = (f1' s k r).2) (h2 : ∀ t k r, (f2 t k r).2 = (f2' t k r).2) :
+    ∀ (n : Node) (s : σ) (t : τ), goodG f1 g1 f2 g2 okk s t n = goodG f1' g1 f2' g2 okk s t n
+  | .mk i k r ns kids, s, t => by
+    simp only [goodG, h1, h2, goodGL_congr h1 h2 kids]
+theorem goodGL_congr (h1 : ∀ s k r, (f1 s k r).2 = (f1' s k r).2) (h2 : ∀ t k r, (f2 t k r).2 = (f2' t k r).2) :
+    ∀ (l : List Node) (s : σ) (t : τ), goodGL f1 g1 f2 g2 okk s t l = goodGL f1' g1 f2' g2 okk s t l
+  | [], _, _ => rfl
+  | n :: rest, s, t => by
+    simp only [goodGL, goodG_congr h1 h2 n, goodGL_congr h1 h2 rest]
+end
+end congr
+
 /-- The model's scope walk of `r` yields, in order, exactly the spec's nodes of the scope (plus walrus targets when `r`
 is a comprehension) that pass the `all` filter. -/
-theorem walkRoot_eq (flt : Bool) (r : Node) (hg : goodRoot flt r = true) :
+theorem walkRoot_eq (flt : Bool) (r : Node) (hg : goodRoot r = true) :
     walkRoot flt r = (ownedWalk r).filter (fun n => !flt || n.kind.isSym) := by
-  have h := travL_sim (sStepF flt) sNext (mStep flt) mNext rel (ok flt)
+  have hg' : goodGL (sStepF flt) sNext (mStep flt) mNext ok (sInit true r.kind) (mInit r.kind) r.kids = true := by
+    rw [goodGL_congr (sStepF flt) sStep sNext (mStep flt) (mStep false) mNext ok (fun _ _ _ => rfl)
+      (fun t k r => mStep_snd flt t k r)]
+    exact hg
+  have h := travL_sim (sStepF flt) sNext (mStep flt) mNext rel ok
     (fun s t k r hR hk => step_ok flt s t k r hR hk) (fun s t r hR => next_ok s t r hR)
-    r.kids (sInit true r.kind) (mInit r.kind) (init_rel r.kind) hg
+    r.kids (sInit true r.kind) (mInit r.kind) (init_rel r.kind) hg'
   unfold walkRoot ownedWalk
   rw [← h, sStepF_eq, travL_filter]
 
@@ -287,34 +322,26 @@ def cStep (c : Core) (n : Node) : Core :=
   ⟨addKeys c.load (reads n), addKeys c.store (binds n), addKeys c.del (dels n), addKeys c.glob (globs n),
    addKeys c.nonl (nonls n)⟩
 
-/-- a node with a capture binder pfst's `scope_symbols` has no branch for -/
-def isCapture (n : Node) : Bool :=
-  match n.kind with
-  | .handler | .matchAs | .matchStar | .matchMap => !n.names.isEmpty
-  | _ => false
-
-theorem symStep_core (a : Acc) (n : Node) (hc : isCapture n = false) :
+theorem symStep_core (a : Acc) (n : Node) :
     (if n.kind.isSym then symStep false a n else a).core = cStep a.core n ∧
     (if n.kind.isSym then symStep false a n else a).walrus = a.walrus := by
   obtain ⟨i, k, r, ns, kids⟩ := n
   cases k <;>
-    simp_all [isCapture, Kind.isSym, symStep, cStep, Acc.core, reads, binds, dels, globs, nonls, Node.kind, Node.names,
-      addKeys_nil, Node.role] <;>
-    (cases ns <;> simp_all [addKeys_nil])
+    simp_all [Kind.isSym, symStep, cStep, Acc.core, reads, binds, dels, globs, nonls, Node.kind, Node.names,
+      addKeys_nil, Node.role]
 
-theorem fold_sym : ∀ (l : List Node) (a : Acc), (∀ n ∈ l, isCapture n = false) →
+theorem fold_sym : ∀ (l : List Node) (a : Acc),
     ((l.filter fun n => n.kind.isSym).foldl (symStep false) a).core = l.foldl cStep a.core ∧
     ((l.filter fun n => n.kind.isSym).foldl (symStep false) a).walrus = a.walrus
-  | [], _, _ => ⟨rfl, rfl⟩
-  | n :: rest, a, h => by
-    have hn := symStep_core a n (h n (List.mem_cons_self))
-    have hr : ∀ m ∈ rest, isCapture m = false := fun m hm => h m (List.mem_cons_of_mem _ hm)
+  | [], _ => ⟨rfl, rfl⟩
+  | n :: rest, a => by
+    have hn := symStep_core a n
     by_cases hs : n.kind.isSym = true
     · simp only [hs, if_true] at hn
-      have ih := fold_sym rest (symStep false a n) hr
+      have ih := fold_sym rest (symStep false a n)
       simp only [List.filter_cons, hs, if_true, List.foldl_cons, ih.1, ih.2, hn.1, hn.2, and_self]
     · simp only [hs, Bool.false_eq_true, if_false] at hn
-      have ih := fold_sym rest a hr
+      have ih := fold_sym rest a
       simp only [List.filter_cons, hs, Bool.false_eq_true, if_false, List.foldl_cons, ← hn.1]
       exact ih
 
